@@ -152,6 +152,23 @@ impl Compiler {
     /// Function declarations directly contained in a statement list are instantiated when
     /// the scope is entered, so that they can be called before their position in the text.
     pub(super) fn emit_hoisted_functions(&mut self, statements: &[Statement]) -> Result<(), JsError> {
+        // let/const bindings of this statement list exist from the start of the scope, in their
+        // temporal dead zone: a reference before the declaration must not reach an outer binding
+        for stmt in statements {
+            if let Statement::VariableDeclaration(decl) = stmt
+                && decl.kind != VariableKind::Var
+            {
+                let mut names = Vec::new();
+                for declarator in decl.declarations.iter() {
+                    Self::collect_pattern_names(&declarator.id, &mut names);
+                }
+                for name in names {
+                    let name_idx = self.builder.add_string(name)?;
+                    self.builder.emit(Op::DeclareLexical { name: name_idx });
+                }
+            }
+        }
+
         for stmt in statements {
             if let Statement::FunctionDeclaration(func) = stmt
                 && self.hoisted_functions.insert(func.span.start)
